@@ -241,8 +241,8 @@ def check_clique_vector(ctx):
                     and isinstance(s.value, ast.Name) and s.value.id in fi.params]
             uses_params = any(isinstance(x, ast.Name) and x.id in fi.params[:2] for b in body for x in ast.walk(b)) \
                 or any(isinstance(x, ast.Name) and x.id in fi.params[:2] for x in ast.walk(g.iter))
-            if not uses_params:
-                continue
+            if not uses_params or not subs:
+                continue        # nothing is taken from self/other by key in this expression
             n += 1
             it = U(g.iter)
             if isinstance(g.target, ast.Name) and it in ('self', 'self.keys()'):
@@ -267,34 +267,82 @@ def check_clique_vector(ctx):
 
 
 def check_combine(ctx, fi):
-    """for K in other: for K2 in self: if set(K) <= set(K2): self[K2] += other[K]; break"""
+    """for K in other: the FIRST K2 of self with set(K) <= set(K2) (if any) receives other[K], exactly once.
+    Recognised searches: inner loop with test + break, and `next((K2 for K2 in self if TEST), None)` with a None-test."""
+    from ..normalise import Defs, expand
     other = fi.params[1]
     outer = [s for s in fi.body if isinstance(s, ast.For)]
-    if len(outer) != 1 or U(outer[0].iter) != other or not isinstance(outer[0].target, ast.Name):
+    if len(outer) != 1:
         raise AnalysisError('CliqueVector.combine: unrecognised outer loop')
-    K = outer[0].target.id
-    inner = [s for s in outer[0].body if isinstance(s, ast.For)]
-    if len(inner) != 1 or U(inner[0].iter) != 'self' or not isinstance(inner[0].target, ast.Name):
+    o = outer[0]
+    it = U(o.iter)
+    srcval = None
+    if it in (other, other + '.keys()') and isinstance(o.target, ast.Name):
+        K = o.target.id
+    elif it == other + '.items()' and isinstance(o.target, ast.Tuple) and len(o.target.elts) == 2 and \
+            all(isinstance(e, ast.Name) for e in o.target.elts):
+        K, srcval = o.target.elts[0].id, o.target.elts[1].id
+    else:
+        raise AnalysisError('CliqueVector.combine: unrecognised outer loop `for %s in %s`' % (U(o.target), it))
+    defs = Defs(o.body)
+    keep = (K, srcval) if srcval else (K,)
+
+    def source_ok(v, K2):
+        t = U(expand(v, defs, keep=keep + (K2,))).replace(' ', '')
+        return t == '%s[%s]' % (other, K) or (srcval is not None and t == srcval)
+
+    inner = [s for s in o.body if isinstance(s, ast.For)]
+    nexts = [s for s in o.body if isinstance(s, ast.Assign) and len(s.targets) == 1 and isinstance(s.targets[0], ast.Name)
+             and isinstance(s.value, ast.Call) and U(s.value.func) == 'next' and s.value.args
+             and isinstance(s.value.args[0], ast.GeneratorExp)]
+    if len(inner) == 1 and not nexts:
+        lp = inner[0]
+        if U(lp.iter) not in ('self', 'self.keys()') or not isinstance(lp.target, ast.Name):
+            raise AnalysisError('CliqueVector.combine: unrecognised inner loop')
+        K2 = lp.target.id
+        ifs = [s for s in lp.body if isinstance(s, ast.If)]
+        if len(ifs) != 1 or len(lp.body) != 1:
+            raise AnalysisError('CliqueVector.combine: unrecognised search body')
+        test = expand(ifs[0].test, defs, keep=keep + (K2,))
+        where_test = ifs[0]
+        body = ifs[0].body
+        adds = [s for s in body if isinstance(s, ast.AugAssign)]
+        ok_once = bool(body) and isinstance(body[-1], ast.Break) and not ifs[0].orelse
+        once_node = body[-1] if body else ifs[0]
+        tgt = K2
+    elif len(nexts) == 1 and not inner:
+        nx_ = nexts[0]
+        gen = nx_.value.args[0]
+        g = gen.generators[0]
+        if len(gen.generators) != 1 or U(g.iter) not in ('self', 'self.keys()') or not isinstance(g.target, ast.Name) \
+                or U(gen.elt) != g.target.id or len(g.ifs) != 1:
+            raise AnalysisError('CliqueVector.combine: unrecognised next(...) search')
+        K2 = g.target.id
+        test = expand(g.ifs[0], defs, keep=keep + (K2,))
+        where_test = nx_
+        tgt = nx_.targets[0].id
+        default = nx_.value.args[1] if len(nx_.value.args) > 1 else None
+        guards = [s for s in o.body if isinstance(s, ast.If) and U(s.test).replace(' ', '') in
+                  ('%sisnotNone' % tgt, '%s!=None' % tgt)]
+        ok_default = default is not None and isinstance(default, ast.Constant) and default.value is None and len(guards) == 1 \
+            and not guards[0].orelse
+        adds = [s for s in (guards[0].body if guards else []) if isinstance(s, ast.AugAssign)]
+        # next() takes the first match by construction; the add must sit under the found-test and nowhere else
+        all_adds = [s for s in ast.walk(o) if isinstance(s, ast.AugAssign)]
+        ok_once = ok_default and len(all_adds) == 1
+        once_node = guards[0] if guards else nx_
+    else:
         raise AnalysisError('CliqueVector.combine: unrecognised inner loop')
-    K2 = inner[0].target.id
-    ifs = [s for s in inner[0].body if isinstance(s, ast.If)]
-    if len(ifs) != 1 or len(inner[0].body) != 1:
-        raise AnalysisError('CliqueVector.combine: unrecognised search body')
-    test = ifs[0].test
-    ok_test = is_subset_test(test, K, K2)
-    ctx.ob('cv-combine', fi, ifs[0], ok_test,
+    ctx.ob('cv-combine', fi, where_test, is_subset_test(test, K, K2),
            'a source factor may only be added to a target clique that contains its attributes: '
-           'test must be set(%s) <= set(%s)' % (K, K2))
-    body = ifs[0].body
-    adds = [s for s in body if isinstance(s, ast.AugAssign)]
-    ok_add = (len(adds) == 1 and isinstance(adds[0].op, ast.Add) and U(adds[0].target) == 'self[%s]' % K2
-              and U(adds[0].value) == '%s[%s]' % (other, K))
-    ctx.ob('cv-combine', fi, adds[0] if adds else ifs[0], ok_add,
-           'the matched target self[%s] must receive exactly other[%s]' % (K2, K))
-    ok_break = bool(body) and isinstance(body[-1], ast.Break) and not ifs[0].orelse
-    ctx.ob('cv-combine', fi, body[-1] if body else ifs[0], ok_break,
-           'the search must stop after the first containing clique (otherwise the source factor is counted '
-           'once per containing clique)', construct='break after ' + (U(adds[0]) if adds else '?'))
+           'test must be set(%s) <= set(%s); is `%s`' % (K, K2, U(test)), construct='containment test of combine')
+    ok_add = (len(adds) == 1 and isinstance(adds[0].op, ast.Add) and U(adds[0].target) == 'self[%s]' % tgt
+              and source_ok(adds[0].value, K2))
+    ctx.ob('cv-combine', fi, adds[0] if adds else where_test, ok_add,
+           'the matched target self[%s] must receive exactly other[%s]' % (tgt, K), construct='accumulation of combine')
+    ctx.ob('cv-combine', fi, once_node, ok_once,
+           'the search must stop at the first containing clique and add once (otherwise the source factor is counted '
+           'once per containing clique)', construct='first-match-only of combine')
 
 
 def is_subset_test(test, small, big):
